@@ -164,6 +164,57 @@ def unit_resolve(eng, name, lz):
     return r
 
 
+def unit_resolve_again(eng, name, lz):
+    """the same operator token evaluated a second time in another state (a '.repeat' body, a file included twice): '.' OP b where '.' is
+    the real InstructionPointer token - the second value is the documented arithmetic of the SECOND state's operand values"""
+    infix = name in INFIX_NAMES
+    op = INFIX_NAMES.get(name) or PREFIX_NAMES[name]
+    uname = "resolve-again[%s,%s]" % (name, "".join("L" if x else "R" for x in lz))
+
+    def run(eng):
+        install_wait(eng)
+        eng.I = {}
+        here = new(eng, "types", "InstructionPointer")
+        a1, a2 = int_input(eng, "here1"), int_input(eng, "here2")
+        if infix:
+            r, b = leaf_value(eng, "b", lz[1])
+            tok = new(eng, "operators", name, here, r)
+            eng.I.update(b=b)
+        else:
+            tok = new(eng, "operators", name, here)
+        eng.I.update(a1=a1, a2=a2)
+        mk = (lambda v: Lazy(v, "int")) if lz[0] else (lambda v: v)
+        r1 = eng.call(eng.getattr(tok, "resolve"), [{"emit_address": mk(a1)}], {})
+        if isinstance(r1, Lazy) and hasattr(r1, "force"):
+            r1.force()
+        eng.I["r1"] = eng.call(eng.resolve_global(eng.load_module("deferred"), "wait"), [r1], {})
+        eng.I["n1"] = len(errors(eng))
+        r2 = eng.call(eng.getattr(tok, "resolve"), [{"emit_address": mk(a2)}], {})
+        return eng.call(eng.resolve_global(eng.load_module("deferred"), "wait"), [r2], {})
+
+    def post(eng, outcome):
+        kind, val = outcome
+        eng.prove("no-exception", kind == "return")
+        if kind != "return":
+            return
+        if infix:
+            want1, err1 = spec_infix(op, eng.I["a1"], eng.I["b"])
+            want2, err2 = spec_infix(op, eng.I["a2"], eng.I["b"])
+        else:
+            want1, err1 = spec_prefix(op, eng.I["a1"]), z3.BoolVal(False)
+            want2, err2 = spec_prefix(op, eng.I["a2"]), z3.BoolVal(False)
+        if not errors(eng):
+            eng.prove("silent-only-when-defined", z3.Not(z3.Or(err1, err2)))
+            eng.prove("first-value", final(eng.I["r1"]) == want1)
+            eng.prove("second-evaluation-in-another-state-denotes-the-arithmetic-of-ITS-operand-values(not the first state's)", final(val) == want2)
+        else:
+            eng.prove("error-only-when-undefined", z3.Or(err1, err2))
+    r = verify(eng, uname, run, post, func="operators.%s.resolve" % ("InfixOperator" if infix else "UnaryOperator"))
+    for o in r["obligations"]:
+        o["cfg"] = dict(kind="again", op=op, infix=infix)
+    return r
+
+
 PSEUDO_NAMES = {"postadd": "x+", "postsub": "x-", "immediate": "#x", "deferred": "@x", "register": "%x", "call": "x(y)"}
 
 
@@ -363,6 +414,7 @@ def units(tier):
         us.append(("body[%s]" % n, "unit_infix_body", dict(name=n)))
         for lz in itertools.product((False, True), repeat=2):
             us.append(("resolve[%s,%s]" % (n, lz), "unit_resolve", dict(name=n, lz=lz)))
+            us.append(("resolve-again[%s,%s]" % (n, lz), "unit_resolve_again", dict(name=n, lz=lz)))
     for n in PSEUDO_NAMES:
         for lz in (itertools.product((False, True), repeat=2) if n == "call" else [(False,), (True,)]):
             us.append(("resolve[%s,%s]" % (n, lz), "unit_pseudo_resolve", dict(name=n, lz=tuple(lz))))
@@ -373,6 +425,7 @@ def units(tier):
         us.append(("body[%s]" % n, "unit_prefix_body", dict(name=n)))
         for lz in ((False,), (True,)):
             us.append(("resolve[%s,%s]" % (n, lz), "unit_resolve", dict(name=n, lz=lz)))
+            us.append(("resolve-again[%s,%s]" % (n, lz), "unit_resolve_again", dict(name=n, lz=lz)))
     return us
 
 
@@ -385,6 +438,41 @@ def canary(eng):
         a, b = z3.Ints("a b")
         eng.prove("canary-truncating-division", z3.Implies(b != 0, fdiv(a, b) == z3.If(a * b >= 0, fdiv(z3.If(a >= 0, a, -a), z3.If(b >= 0, b, -b)), -fdiv(z3.If(a >= 0, a, -a), z3.If(b >= 0, b, -b)))))
     return verify(eng, "canary", run, post, func="canary")
+
+
+def replay_again(cfg, w, tree):
+    """the same token in two states: a '.repeat' body at two addresses, compared with the two copies written out"""
+    from spec import expr_spec as spec
+    op = cfg["op"]
+    b = w.get("b", 2)
+    cands = [b, 2, 3, 1] if cfg.get("infix") else [None]
+    jobs, exps, srcs = [], [], []
+    for base in (0o1000, 0o2010):
+        for bv in cands:
+            if cfg.get("infix"):
+                if bv is None or not (0 < bv < 9):
+                    continue
+                e = ". %s %o" % (op, bv)
+                vals = []
+                for a in (base, base + 2):
+                    try:
+                        vals.append(spec.apply_infix(op, a, bv))
+                    except spec.ArithmeticError_:
+                        vals = None
+                        break
+            else:
+                e = "%s ." % op if op == "^c" else "%s." % op
+                vals = [spec.apply_prefix(op, a) for a in (base, base + 2)]
+            if vals is None or any(abs(v) >= 65536 for v in vals):
+                continue
+            src = ".link %o\n.repeat 2 { .word %s }\n" % (base, e)
+            srcs.append(src)
+            jobs.append({"kind": "asm", "sources": [src]})
+            exps.append(["ok", b"".join((v % 65536).to_bytes(2, "little") for v in vals).hex()])
+    res = driver.native(jobs, tree)
+    obs = [[r["status"]] + ([r["code_hex"]] if r["status"] == "ok" else []) for r in res]
+    bad = [i for i in range(len(jobs)) if obs[i] != exps[i]]
+    return dict(jobs=jobs, sources=[srcs[i] for i in bad][:3], expected=[exps[i] for i in bad][:3], observed=[obs[i] for i in bad][:3], reproduced=bool(bad))
 
 
 def replay(o, tree):
@@ -403,6 +491,8 @@ def replay(o, tree):
         return deferred_c.replay_poly_scalar(cfg, tree)
     if cfg.get("kind") == "poly-mul":
         return deferred_c.replay_poly_mul(cfg, w, tree)
+    if cfg.get("kind") == "again":
+        return replay_again(cfg, w, tree)
     if cfg.get("kind") == "pseudo":
         sp = {"x+": "lab+", "x-": "lab-", "#x": "#lab", "@x": "@lab", "%x": "%lab", "x(y)": "lab(2)"}[cfg["op"]]
         srcs = [".word %s\nlab:\n" % sp, "lab:\n.word %s\n" % sp]
